@@ -193,7 +193,7 @@ def run(ctx):
                 'reader; non-trivial = >=2 sends, an odd-length UID or a data-set toggle; distinct by history')
     ctx.assumptions = ['zero-length optional elements are accepted as well-formed',
                        'command dictionary and command-field codes transcribed from PS3.7 (vf/refcmd.py)']
-    n = 8000 if ctx.thorough else 120
+    n = 8000 if ctx.thorough else 300
     parallel(ctx, run_class, [{'cfs': dg.ALL_CF[i::16], 'n': n} for i in range(16)])
     run_uid_lengths(ctx)
 
